@@ -25,3 +25,6 @@ def run(ctx):
     ctx.run("C03.DUMP-FLOW", "R-FLOW", zf.dump_flow)
     ctx.run("C03.CLOSE", "R-ORDER", zf.close_clause)
     ctx.run("C13.FLUSH", "R-ORDER", zf.flush)
+    ctx.run("C13.PROGRESS", "R-PROGRESS", zf.progress)
+    ctx.run("C13.CURSOR", "R-DUAL", zf.cursor)
+    ctx.run("C13.POS", "R-ORDER", zf.pos)
